@@ -1,4 +1,5 @@
 """C04 — key generation is the specification's function of the seed (six sets, seeded and unseeded)."""
+import json, os
 from vcore import Case
 from dlib import Q, Par, ALL, API_OF, crate, decode_pk, decode_sk, negacyclic_mul
 import pyref
@@ -6,9 +7,14 @@ import pyref
 RULE = ("seeds all-00, all-FF, single-bit, random, for sign::<set>::keypair and <set>::Keypair::generate; model = crate byte for byte on a subset "
         "(the model is slow), crate = independent FIPS 204 / Dilithium 3.1 KeyGen (Python, hashlib) on all; unseeded generation with a scripted RNG tape "
         "and with the real RNG recorded by the tap: the keys must be KeyGen of exactly the 32 bytes drawn; algebraic relation t1*2^13+t0 = A s1 + s2 by "
-        "schoolbook multiplication on decoded keys. Non-trivial = every distinct (set, seed).")
+        "schoolbook multiplication on decoded keys; committed corpus of seeds for which an s1/s2 polynomial of the eta=4 sets needs a THIRD SHAKE-256 block "
+        "(1 seed in 14000; thorough tier searches fresh ones); key generation into over-long, dirty caller buffers (the slice API asks for 'at least' the "
+        "standard sizes): the key is the same prefix and the excess bytes are untouched. Non-trivial = every distinct (set, seed).")
 ASSUMPTIONS = ["2^256 seeds sampled; the Python reference is the search oracle, the claim rests on the model's theorems and the correspondence"]
 TIMEOUT = {"quick": 900, "thorough": 3000}
+
+
+CORPUS = os.path.join(os.path.dirname(os.path.dirname(os.path.dirname(os.path.abspath(__file__)))), "corpus", "c04_three_block_seeds.json")
 
 
 def seeds(rng, n):
@@ -35,7 +41,47 @@ def gen(tier, rng):
             out.append(Case("keypair", cp, [sd], ["in_domain", "seeded", "crate-only"]))
         for _ in range(4 if tier == "quick" else 100):
             out.append(Case("keypair_live", cp, [], ["in_domain", "live-rng", "crate-only"], skip_release=True))
+        # caller buffers longer than the standard sizes, with arbitrary old content
+        p = Par(cp)
+        for k, (ep, es) in enumerate(((0, 0), (1, 0), (0, 1), (64, 32), (p.pk, p.sk))):
+            sd = bytes(rng.randrange(256) for _ in range(32))
+            pk0 = bytes(rng.randrange(256) for _ in range(p.pk + ep)); sk0 = bytes(rng.randrange(256) for _ in range(p.sk + es))
+            out.append(Case("keypair_buf", cp, [pk0, sk0, sd], ["in_domain", "seeded", "caller-buffers"] + ([] if k in (1, 3) else ["crate-only"])))
+    # rare path: third SHAKE-256 block in the eta = 4 rejection sampler
+    three = json.load(open(CORPUS)) if os.path.exists(CORPUS) else []
+    seen = set()
+    for e in three:
+        tags = ["in_domain", "seeded", "three-block-seed", "corpus"] + (["crate-only"] if e["set"] in seen else [])
+        seen.add(e["set"])
+        out.append(Case("keypair", e["set"], [bytes.fromhex(e["seed"])], tags))
+    if tier == "thorough":
+        for cp, sd in fresh_three_block_seeds(rng, 2):
+            out.append(Case("keypair", cp, [sd], ["in_domain", "seeded", "three-block-seed", "crate-only"]))
     return out
+
+
+TBL4 = [sum(1 for t in (b & 15, b >> 4) if t < 9) for b in range(256)]
+
+
+def _three_block(job):
+    import hashlib, random
+    cp, seed, want = job
+    p = Par(cp); rng = random.Random(seed); out = []
+    for _ in range(60000):
+        xi = bytes(rng.randrange(256) for _ in range(32))
+        rhop = pyref.H(xi + (bytes([p.K, p.L]) if p.mldsa else b""), 128)[32:96]
+        for r in range(p.K + p.L):
+            if sum(map(TBL4.__getitem__, hashlib.shake_256(rhop + r.to_bytes(2, "little")).digest(272))) < 256:
+                out.append((cp, xi)); break
+        if len(out) >= want: break
+    return out
+
+
+def fresh_three_block_seeds(rng, want):
+    from concurrent.futures import ProcessPoolExecutor
+    jobs = [(cp, rng.getrandbits(64), 1) for cp in ALL if Par(cp).eta == 4 for _ in range(want)]
+    with ProcessPoolExecutor(max_workers=8) as ex:
+        return [x for part in ex.map(_three_block, jobs) for x in part]
 
 
 def nontrivial(c, out):
@@ -51,6 +97,11 @@ def oracle(c, outs):
     if c.fn == "keypair":
         pk, sk = outs
         seed = bytes.fromhex(c.args[0][1:])
+    elif c.fn == "keypair_buf":
+        pk0, sk0, seed = (bytes.fromhex(c.args[i][1:]) for i in range(3))
+        if len(outs[0]) != len(pk0) or len(outs[1]) != len(sk0) or outs[0][p.pk:] != pk0[p.pk:] or outs[1][p.sk:] != sk0[p.sk:]:
+            return "keypair/%s wrote outside the standard key sizes of the caller's buffers" % c.copy
+        pk, sk = outs[0][:p.pk], outs[1][:p.sk]
     elif c.fn == "kp_generate":
         sk, pk, whole = outs
         seed = bytes.fromhex(c.args[0][1:])
